@@ -17,7 +17,7 @@ ASSUMPTIONS = [
     "the parent link of the copy's root is not constrained by the statement",
     "sharing of immutable values (strings) between copy and original is not 'mutable state'",
 ]
-REQUIRED = ["cross_session_documents", "copies", "edits_on_copy", "edits_on_original", "aliasing_checks", "inner_node_copies", "second_generation_copies", "deep_chain_copies", "trees_with_stale_parent_links", "wide_trees", "trees_with_repeated_id_strings", "original_registry_entries_rechecked", "copies_with_shared_nsmap_in_original"]
+REQUIRED = ["cross_session_documents", "copies", "edits_on_copy", "edits_on_original", "aliasing_checks", "inner_node_copies", "second_generation_copies", "nodes_in_one_copy", "trees_with_unregistered_nodes", "deep_chain_copies", "trees_with_stale_parent_links", "wide_trees", "trees_with_repeated_id_strings", "original_registry_entries_rechecked", "copies_with_shared_nsmap_in_original"]
 EXHAUSTIVE = {"quick": False, "thorough": False}
 
 EDITS = ("content", "tail", "prefix", "name", "attr_add", "attr_overwrite", "attr_remove", "extras_add", "ns_declare", "ns_redeclare",
@@ -197,6 +197,13 @@ def one_tree(ctx, size, i):
                 x.parent = former
         if inner:
             ctx.count("trees_with_stale_parent_links")
+    if i % 9 == 1:
+        # the source was taken out of the registry before it is copied (retired by a replace, returned by prune, deleted by id while a
+        # handle was kept): the copy is a new tree of its own, registered like any other
+        for x in rng.sample(snapshot.walk(t), min(3, len(snapshot.walk(t)))):
+            if Node.store.get(x.id) is x:
+                Node.delete_node_instance(x.id, children=False)
+        ctx.count("trees_with_unregistered_nodes")
     share = rng.random() < 0.5
     if share:
         share_equal_maps(t)
@@ -313,14 +320,53 @@ def deep_chain_copy(ctx, depth):
     emlkit.discard(root, c)
 
 
+def big_copy(ctx, n_items):
+    """One copy() of a subtree of tens of thousands of nodes (an attribute list of a wide table): every node of the copy has an id of
+    its own and is retrievable by it."""
+    root = Node("attributeList")
+    for i in range(n_items):
+        a = Node("attribute")
+        for nm in ("attributeName", "attributeDefinition", "storageType"):
+            a.add_child(Node(nm, content=f"{nm} {i}"))
+        root.add_child(a)
+    ids_before = set(Node.store.keys())
+    wit = {"big_copy": n_items}
+    try:
+        c = root.copy()
+    except Exception as e:
+        ctx.violation(f"crash:{type(e).__name__}@{emlkit.raise_site(e)}|big-copy", f"copy() of {4 * n_items + 1} nodes raised {type(e).__name__}", wit)
+        emlkit.discard(root)
+        return
+    nodes = snapshot.walk(c)
+    ctx.evaluated()
+    ctx.count("nodes_in_one_copy", len(nodes))
+    ids = {}
+    for n in nodes:
+        if n.id in ids or n.id in ids_before:
+            ctx.violation("copy-ids-not-unique|big-copy", f"in a copy of {len(nodes)} nodes the id {n.id!r} occurs twice (or existed before)", wit)
+            break
+        ids[n.id] = n
+    else:
+        bad = next((n for n in nodes if Node.get_node_instance(n.id) is not n), None)
+        if bad is not None or len(nodes) != 4 * n_items + 1:
+            ctx.violation("copy-node-not-registered|big-copy", f"a node of a copy of {len(nodes)} nodes is not retrievable by its id", wit)
+    emlkit.discard(root, c)
+
+
 def run(ctx, params):
     cross_session(ctx)
     ctx.case(deep_chain_copy, ctx, 400, seconds=120.0)
+    ctx.case(big_copy, ctx, 4200 if ctx.tier == "quick" else 17000, seconds=300.0)
     for i in range(params["trees"]):
         ctx.case(one_tree, ctx, ctx.rng.choice([1, 2, 3, 5, 8, 12, 25, 60]), i, seconds=60.0)
 
 
 def replay(ctx, witness):
+    if witness.get("big_copy"):
+        big_copy(ctx, witness["big_copy"])
+        ctx.distinct(1)
+        ctx.distinct(2)
+        return
     if witness.get("deep_chain"):
         deep_chain_copy(ctx, witness["deep_chain"])
         ctx.distinct(1)
